@@ -4,6 +4,7 @@ the file's lines and the read-back structure.  Floats travel as float.hex()
 strings (bit exact; every NaN is 'nan'), integers as Python ints."""
 import json
 import math
+import shutil
 import sys
 import traceback
 from pathlib import Path
@@ -20,9 +21,10 @@ def hx(x):
     return 'nan' if math.isnan(x) else x.hex()
 
 
-def arr(rows, width):
+def arr(rows, width, dtype=None):
     a = np.array([[fl(h) for h in r] for r in rows], dtype=np.float64)
-    return a.reshape(len(rows), width)
+    a = a.reshape(len(rows), width)
+    return a.astype(dtype) if dtype and dtype != 'float64' else a
 
 
 def build(case):
@@ -30,7 +32,7 @@ def build(case):
     from femio import FEMData, FEMAttribute, FEMElementalAttribute
     from femio.fem_attributes import FEMAttributes
     nd = case['nodes']
-    nodes = FEMAttribute('NODE', np.array(nd['ids'], dtype=np.int64), arr(nd['rows'], nd['width']),
+    nodes = FEMAttribute('NODE', np.array(nd['ids'], dtype=np.int64), arr(nd['rows'], nd['width'], nd.get('dtype')),
                          silent=True)
     blocks = {}
     for b in case['elems']:
@@ -44,7 +46,7 @@ def build(case):
     for v in case['nodal']:
         ids = np.array(v['ids'], dtype=np.int64)
         if v['kind'] == '2d':
-            data = arr(v['rows'], v['width'])
+            data = arr(v['rows'], v['width'], v.get('dtype'))
         elif v['kind'] == '1d':
             data = np.array([fl(r[0]) for r in v['rows']], dtype=np.float64)
         else:  # '3d': (n, w, 2), not a time series of the node count
@@ -55,7 +57,7 @@ def build(case):
         for b in v['blocks']:
             ids = np.array(b['ids'], dtype=np.int64)
             if v['kind'] == '2d':
-                data = arr(b['rows'], v['width'])
+                data = arr(b['rows'], v['width'], v.get('dtype'))
             elif v['kind'] == '1d':
                 data = np.array([fl(r[0]) for r in b['rows']], dtype=np.float64)
             else:
@@ -77,14 +79,20 @@ def itable(ids, data):
 def run_case(case, work):
     import femio
     out = {'id': case['id']}
+    # the file lives alone in its directory so that it can also be read with read_directory
     if case.get('path_key'):
         # same-process history stream: successive cases write and read the SAME path
         # (the file of the previous case is still there and is overwritten)
-        p = Path(work) / f"shared_{case['path_key']}.inp"
+        d = Path(work) / f"shared_{case['path_key']}"
+        d.mkdir(exist_ok=True)
+        p = d / 'mesh.inp'
+        overwrite = True
     else:
-        p = Path(work) / f"c{case['id']}.inp"
-        if p.exists():
-            p.unlink()
+        d = Path(work) / f"c{case['id']}"
+        shutil.rmtree(d, ignore_errors=True)
+        d.mkdir()
+        p = d / 'mesh.inp'
+        overwrite = bool(case.get('overwrite', True))
     try:
         fd = build(case)
         out['mesh_elem_ids'] = [int(i) for i in fd.elements.ids]
@@ -92,7 +100,7 @@ def run_case(case, work):
         out['build_error'] = f'{type(e).__name__}: {e}'
         return out
     try:
-        fd.write('ucd', str(p), overwrite=True)
+        fd.write('ucd', str(p), overwrite=overwrite)
         out['lines'] = p.read_text().split('\n')
         if out['lines'] and out['lines'][-1] == '':
             out['lines'].pop()
@@ -100,15 +108,23 @@ def run_case(case, work):
         out['write_error'] = f'{type(e).__name__}: {e}'
         out['write_tb'] = traceback.format_exc()[-600:]
         return out
-    try:
-        r = femio.FEMData.read_files('ucd', [str(p)])
-        out['read'] = {
+
+    def read_and_dump():
+        if case.get('reader') == 'directory':
+            r = femio.FEMData.read_directory('ucd', str(d), read_npy=False, save=False)
+        else:
+            r = femio.FEMData.read_files('ucd', [str(p)])
+        return {
             'nodes': table(r.nodes.ids, r.nodes.data),
             'elems': [[t, itable(v.ids, v.data)] for t, v in r.elements.items()],
             'nodal': [[k, table(v.ids, v.data)] for k, v in r.nodal_data.items()],
             'elemental': [[k, table(v.ids, v.data)] for k, v in r.elemental_data.items()],
             'elemental_types': [[k, list(v.keys())] for k, v in r.elemental_data.items()],
         }
+    try:
+        out['read'] = read_and_dump()
+        if case.get('read_twice'):
+            out['second_read_differs'] = read_and_dump() != out['read']
     except Exception as e:
         out['read_error'] = f'{type(e).__name__}: {e}'
         out['read_tb'] = traceback.format_exc()[-600:]
